@@ -104,6 +104,12 @@ func newWorld(c *core.Ctx, kind string, at int) *world {
 				return &payloads.ActivateResponsePayload{UniqueIdentifier: id}
 			})
 		}
+		if w.kind == "server-replies-with-eof" && (w.at < 0 || ord == w.at || (w.at >= 1000 && id != "discover")) {
+			// the reply and the end of the stream arrive together: the client's Read that completes the response reports io.EOF with it
+			w.fired.Store(true)
+			conn.WriteAndClose(ttlv.MarshalTTLV(resp))
+			return nil
+		}
 		if w.kind == "server-closes-after-reply" && ord == w.at && !w.fired.Swap(true) {
 			// reply, then close: the write happens here so that the close follows it
 			conn.Write(ttlv.MarshalTTLV(resp))
@@ -437,6 +443,42 @@ func repeatedDrops(c *core.Ctx, r *core.Rand, i int) {
 	core.Guard(func() { cl.Close() })
 	w.srv.Close()
 	leak(c, base, "server-drops-repeatedly", label)
+}
+
+// repliesWithEOF: the server closes right after replying, and the transport hands the client the last bytes of the reply
+// together with io.EOF (allowed for any io.Reader; TLS and proxies do it). Mode 0: for every exchange, negotiation
+// included; 1: for one exchange; 2: for every call but not the negotiation. The complete response was received: the
+// generic rules apply (never two consecutive failures with a reachable server, at most four transmissions) and a
+// response is the caller's own.
+func repliesWithEOF(c *core.Ctx, r *core.Rand, i int) {
+	mode := i % 3
+	at := []int{-1, r.Intn(5), 1000}[mode]
+	label := fmt.Sprintf("rwe%d-mode%d@%d", i, mode, at)
+	base := len(census.Goroutines())
+	w := newWorld(c, "server-replies-with-eof", at)
+	var cl *kmipclient.Client
+	var err error
+	if p, pv, st := core.Guard(func() { cl, err = kmipclient.Dial("mem", kmipclient.WithDialerUnsafe(w.dialer)) }); p {
+		c.Violation(core.PanicSig(pv, st), fmt.Sprintf("Dial panicked (%s): %v", label, pv), map[string]any{"stack": st})
+		w.srv.Close()
+		return
+	}
+	if err != nil {
+		c.Violation("C11:reply-with-eof:dial-fails", fmt.Sprintf("Dial fails although the server answered the negotiation completely before it closed: %v (%s)", err, label), nil)
+		w.srv.Close()
+		return
+	}
+	var outs []outcome
+	for k := 1; k <= 4; k++ {
+		outs = append(outs, w.call(cl, fmt.Sprintf("%s-call%d", label, k)))
+	}
+	c.Count("reply_with_eof_scenarios", 1)
+	c.Count(fmt.Sprintf("reply_with_eof_scenarios.mode%d", mode), 1)
+	c.Distinct(core.Hash64("reply-with-eof", fmt.Sprint(mode, at)))
+	w.judge(label, outs)
+	core.Guard(func() { cl.Close() })
+	w.srv.Close()
+	leak(c, base, "server-replies-with-eof", label)
 }
 
 // reconnect failures: the dialer itself fails a few times after the fault, then recovers
@@ -1003,12 +1045,18 @@ func Spec() *core.Spec {
 			"Monitors: panic/crash, own-id response or error, never two consecutive failed calls, <= 4 transmissions per request, calls fail after Close, goroutine census after Close. a response whose frame-completing Read is handed over only when the connection is closed (call abandoned by cancel, deadline or Close); Close() under a pending call on a transport whose Close is slow; a reconnection dial that stalls until the caller's deadline; a write stalling past the caller's deadline; Dial losing its first connection and failing the negotiation on the second; two fault kinds that leave the peer healthy (io.ErrShortWrite; error after complete delivery); distinct = distinct (scenario kind, fault kind, operation index)",
 		Assumptions: []string{"recovery rule used: while the server is reachable and new connections are fault-free, two consecutive calls never both fail (a call pending at, or first after, the fault may fail)",
 			"goroutines gone = none with a library frame within 10 s of closing the client and the server (bounded progress)"},
-		Required: []string{"calls", "late_responses_held", "stalled_writes", "closes_under_a_call", "stalled_redials", "negotiation_reconnects.second-connection-used", "double_faults_both_fired", "faults_fired.read-eof", "faults_fired.read-reset", "faults_fired.write-epipe", "faults_fired.short-write", "faults_fired.short-write-peer-stays", "faults_fired.write-error-after-delivery", "faults_fired.server-closes-after-reply", "faults_fired.server-closes-after-read",
+		Required: []string{"calls", "reply_with_eof_scenarios.mode0", "reply_with_eof_scenarios.mode1", "reply_with_eof_scenarios.mode2", "late_responses_held", "stalled_writes", "closes_under_a_call", "stalled_redials", "negotiation_reconnects.second-connection-used", "double_faults_both_fired", "faults_fired.read-eof", "faults_fired.read-reset", "faults_fired.write-epipe", "faults_fired.short-write", "faults_fired.short-write-peer-stays", "faults_fired.write-error-after-delivery", "faults_fired.server-closes-after-reply", "faults_fired.server-closes-after-read",
 			"census_checks", "calls_after_close", "repeated_drops.k4", "repeated_drops.k5", "dialer_failure_scenarios", "concurrent_scenarios", "directed.terminate-before-send-select", "directed.close-in-flight"},
 		Shards: func(string) int { return 8 },
 		Families: []core.Family{
 			{Name: "matrix", Exhaustive: true, N: func(string) int { return maxOps * len(kinds) }, Run: matrix, Timeout: 40 * time.Second},
 			{Name: "repeated-drops", Exhaustive: true, N: func(string) int { return 16 }, Run: repeatedDrops, Timeout: 40 * time.Second},
+			{Name: "replies-with-eof", N: func(tier string) int {
+				if tier == core.Thorough {
+					return 600
+				}
+				return 18
+			}, Run: repliesWithEOF, Timeout: 40 * time.Second},
 			{Name: "double-fault", N: func(tier string) int {
 				if tier == core.Thorough {
 					return len(kinds) * 14 * nClientKinds * 10
